@@ -200,6 +200,10 @@ pub struct Outcome {
     pub max_call_depth: usize,
     /// gc_stats().live_objects after each host-forced collection at a suspension
     pub live_at_suspend: Vec<u64>,
+    /// max instructions inside one step() call that did NOT re-enter the VM through a native
+    pub max_step_instr_no_reentry: u64,
+    /// number of step() calls during which a native re-entered the VM (nested BytecodeVM::run)
+    pub steps_with_reentry: u64,
     /// first line of the error's display text (what a C host sees), when the run failed
     pub error_text: Option<String>,
     pub host_activity: u64,
@@ -662,10 +666,17 @@ impl Run {
             return !self.finished;
         }
         let before = tsrun::verif::instructions();
+        let runs_before = tsrun::verif::runs_entered();
         let r = h.interp.step();
         let used = tsrun::verif::instructions() - before;
+        let reentered = tsrun::verif::runs_entered() != runs_before;
         if used > self.out.max_step_instr {
             self.out.max_step_instr = used;
+        }
+        if reentered {
+            self.out.steps_with_reentry += 1;
+        } else if used > self.out.max_step_instr_no_reentry {
+            self.out.max_step_instr_no_reentry = used;
         }
         self.out.steps += 1;
         let d = h.interp.call_depth();
